@@ -1,6 +1,6 @@
 """Shared rules over the sharded track store (used by C05, C09, C10)."""
 from linear import destroyed
-from lib import (Cond, ExprBuilder, closure_args_of_call, count_on_paths, necessary_edges, path_conditions,
+from lib import (Cond, ExprBuilder, closure_args_of_call, count_on_paths, necessary_edges, orient, path_conditions,
                  reachable_bodies, upvar_expr)
 from mir import norm
 
@@ -384,6 +384,7 @@ def rule_consumers(ctx, R):
                 n += 1
                 ctx.check(r == (1, 1), R, ga, 'get_all:one-recv-per-iteration', str(r),
                           'the loop over the expected chunks receives %s times per iteration' % (r,))
+    counters = {}
     for it in ('TrackDistanceOkIterator', 'TrackDistanceErrIterator'):
         path = '<track::store::track_distance::%s as std::iter::Iterator>::next' % it
         b = ctx.anchor(R, path)
@@ -396,7 +397,37 @@ def rule_consumers(ctx, R):
         n += 1
         ctx.check(len(recvs) == 1 and not other, R, b, it + ':blocking-recv', '',
                   'the chunk iterator does not use a blocking recv (%s)' % [c.name for c in other])
-        # every possibly-None result requires iterator_count == 0
+        # the counter of outstanding chunks: the field of self that `next` updates from its own previous value (the
+        # struct is private to the store: the name of the field is not part of the rule)
+        decs = []
+        for i in sorted(b.live_blocks()):
+            for si, s in enumerate(b.blocks[i]['st']):
+                if s['k'] == 'assign' and s['lhs']['p'] and isinstance(s['lhs']['p'][-1], dict) and \
+                        s['lhs']['p'][-1].get('n'):
+                    # a field reached from self (directly, or through `&mut self.inner` of an inlined helper)
+                    base = eb.operand({'k': 'copy', 'pl': {'l': s['lhs']['l'], 'p': s['lhs']['p'][:-1]}},
+                                      at=(i, si)).strip()
+                    if not (base.kind == 'place' and base.root == ('param', 1)):
+                        continue
+                    fld = s['lhs']['p'][-1]['n']
+                    e = eb._rvalue(s['rv'], (), 0, (i, si))
+                    if e.has_field(fld):
+                        decs.append((i, si, e, fld))
+        counter = decs[0][3] if decs else None
+        counters[it] = counter
+
+        def minus_one(e):
+            """self.counter - 1, plain or checked (`checked_sub(1)?`)"""
+            x = e.strip()
+            if x.kind == 'bin' and x.name == 'Sub':
+                return x.args[0].has_field(counter) and x.args[1].kind == 'const' and x.args[1].const.get('v') == '1'
+            for y in e.walk():
+                if y.kind == 'call' and y.name.rsplit('::', 1)[-1] in ('checked_sub', 'saturating_sub', 'wrapping_sub') \
+                        and len(y.args) == 2:
+                    a1 = y.args[1].strip()
+                    return y.args[0].has_field(counter) and a1.kind == 'const' and a1.const.get('v') == '1'
+            return False
+        # every possibly-None result requires counter == 0
         for d in b.defs().get(0, []):
             if d[1] not in b.live_blocks():
                 continue
@@ -404,8 +435,16 @@ def rule_consumers(ctx, R):
             zero = False
             for k in conds:
                 cm = k.cmp()
-                if cm and cm[0] == 'Eq' and (cm[1].has_field('iterator_count') or cm[2].has_field('iterator_count')) \
-                        and any(x.kind == 'const' and x.const.get('v') == '0' for x in (cm[1], cm[2])):
+                if cm and counter and (cm[1].has_field(counter) or cm[2].has_field(counter)):
+                    o = orient(cm, lambda e: e.has_field(counter))
+                    if o and o[2].strip().kind == 'const':
+                        v = o[2].strip().const.get('v')
+                        if (o[0], v) in (('Eq', '0'), ('Lt', '1'), ('Le', '0')):
+                            zero = True
+                # `counter.checked_sub(1)?`: the None / Break side is exactly counter == 0
+                if counter and k.kind == 'discr' and k.variants <= {'None', 'Break'} and k.variants and any(
+                        y.kind == 'call' and y.name.rsplit('::', 1)[-1] == 'checked_sub' and minus_one(y)
+                        for y in k.expr.walk()):
                     zero = True
             issome = any(k.kind == 'bool' and k.truth is True and k.expr.kind == 'call' and k.expr.name.endswith(
                 'Option::is_some') for k in conds) or any(k.kind == 'discr' and k.variants == {'Some'} for k in conds)
@@ -421,38 +460,33 @@ def rule_consumers(ctx, R):
                 ctx.ok(R, b, it + ':returns-element', 'element returned when present')
             else:
                 ctx.check(zero, R, b, it + ':end-only-when-all-chunks-consumed',
-                          'iteration ends only when iterator_count == 0',
+                          'iteration ends only when the counter of outstanding chunks is 0',
                           'the iterator can end (or yield a possibly-empty result) while chunks are still '
                           'outstanding: an empty partial result from one shard drops the results of the others',
                           d[3]['ln'] if d[0] == 'assign' else d[2].ln)
         # one decrement per receive
-        decs = []
-        for i in sorted(b.live_blocks()):
-            for si, s in enumerate(b.blocks[i]['st']):
-                if s['k'] == 'assign' and s['lhs']['p'] and isinstance(s['lhs']['p'][-1], dict) and \
-                        s['lhs']['p'][-1].get('n') == 'iterator_count':
-                    decs.append((i, si, eb._rvalue(s['rv'], (), 0, (i, si))))
         n += 1
-        okd = len(decs) == 1 and decs[0][2].kind == 'bin' and decs[0][2].name == 'Sub' and \
-            decs[0][2].args[1].kind == 'const' and decs[0][2].args[1].const.get('v') == '1' and recvs and \
-            b.dominates(decs[0][0], recvs[0].bb)
-        ctx.check(okd, R, b, it + ':one-decrement-per-receive', 'iterator_count -= 1 before each recv',
-                  'iterator_count is not decremented exactly by one per received chunk (%s)' % [repr(d[2]) for d in decs])
-    # into_iter wiring: iterator_count = count
+        okd = len(decs) == 1 and minus_one(decs[0][2]) and recvs and b.dominates(decs[0][0], recvs[0].bb)
+        ctx.check(okd, R, b, it + ':one-decrement-per-receive', 'counter -= 1 before each recv',
+                  'the counter of outstanding chunks is not decremented exactly by one per received chunk (%s)' % [
+                      repr(d[2]) for d in decs])
+    # into_iter wiring: the counter starts as the expected number of chunks (a field of the response, unmodified)
     for it, src in (('TrackDistanceOk', 'TrackDistanceOkIterator'), ('TrackDistanceErr', 'TrackDistanceErrIterator')):
         for b in F.search(r'track_distance::%s as std::iter::IntoIterator>::into_iter$' % it):
             ctx.read(b)
             e = ExprBuilder(b).place(0, ())
-            aggs = [x for x in e.walk() if x.kind == 'agg' and x.name.endswith(src + '::' + src)]
+            aggs = [x for x in e.walk() if x.kind == 'agg' and isinstance(x.extra, dict) and
+                    counters.get(src) in (x.extra.get('fields') or [])]
             okw = False
             if aggs:
-                fields = aggs[0].extra['fields']
-                idx = fields.index('iterator_count')
+                idx = aggs[0].extra['fields'].index(counters[src])
                 v = aggs[0].args[idx]
-                okw = v.has_field('count') and not any(y.kind == 'bin' for y in v.walk())
+                vs = v.strip()
+                okw = vs.kind == 'place' and vs.root == ('param', 1) and bool(vs.fields) and \
+                    not any(y.kind == 'bin' for y in v.walk())
             n += 1
-            ctx.check(okw, R, b, it + ':iterator_count=count', '', 'the iterator does not start with iterator_count = '
-                      'count (%r)' % (aggs[0].args if aggs else e))
+            ctx.check(okw, R, b, it + ':iterator_count=count', '', 'the iterator does not start with its counter = '
+                      'the expected number of chunks (%r)' % (aggs[0].args if aggs else e))
     return n
 
 
